@@ -77,9 +77,9 @@ var stubEntry = util.Uint160{0xe1, 0xe2, 0xe3}
 func genMatch(t *rapid.T) MatchCase {
 	var c MatchCase
 	levels := rapid.SampledFrom([]int{1, 2, 2, 3, 3, 3}).Draw(t, "levels")
-	c.Cond = genCond(t, levels)
+	c.Cond = genCond(t, levels, biasNone)
 	if c.Cond.T != "not" && c.Cond.T != "and" && c.Cond.T != "or" && levels > 1 { // favour compound roots
-		c.Cond = Cond{T: rapid.SampledFrom([]string{"and", "or"}).Draw(t, "root"), Sub: []Cond{c.Cond, genCond(t, levels-1)}}
+		c.Cond = Cond{T: rapid.SampledFrom([]string{"and", "or"}).Draw(t, "root"), Sub: []Cond{c.Cond, genCond(t, levels-1, biasNone)}}
 	}
 	c.Ctx.Cur = rapid.SampledFrom(hashLeafRefs).Draw(t, "cur")
 	c.Ctx.Calling = rapid.SampledFrom(append([]int{-1, -1}, hashLeafRefs...)).Draw(t, "calling")
